@@ -61,4 +61,34 @@ example : judgeEv { conns := [1] } [.start, .cycle 1, .tConnect 1, .xErr "k1", .
 example : judgeEv { conns := [1] } [.start, .xDest (.obj 1) (.user 1), .cycle 1, .tConnect 1, .tLogon (.user 1), .cycle 2,
     .exitLoop, .hbs [], .refs 0 0, .slots 2] ≠ [] := by decide
 
+-- clause disconnect: net_dead for a user whose client never hung up (the stale event of another connection reached
+-- it); accepted when that client did close or reset
+example : clauseDisconnect { conns := [1, 2] } [.start, .cycle 1, .tConnect 1, .tLogon (.user 1), .cycle 2, .tConnect 2,
+    .tLogon (.user 2), .tNetdead (.user 2), .cycle 3, .exitLoop] ≠ [] := by decide
+example : judgeEv { conns := [1, 2], closed := [1] } [.start, .cycle 1, .tConnect 1, .tLogon (.user 1), .cycle 2,
+    .tNetdead (.user 1), .tConnect 2, .tLogon (.user 2), .tNetdead (.user 2), .cycle 3,
+    .exitLoop, .hbs [], .refs 0 0, .slots 0] ≠ [] := by decide
+example : clauseDisconnect { conns := [1, 2], closed := [2] } [.start, .cycle 1, .tConnect 1, .tLogon (.user 1), .cycle 2,
+    .tConnect 2, .tLogon (.user 2), .tNetdead (.user 2), .cycle 3, .exitLoop] = [] := by decide
+
+-- clause hb-schedule: two beats of one object in one tick; a beat of a destructed object; one beat per tick is fine
+example : clauseHbSchedule [.start, .cycle 1, .tHb (.obj 1), .tHb (.obj 2), .tHb (.obj 1), .cycle 2] ≠ [] := by decide
+example : clauseHbSchedule [.start, .cycle 1, .tHb (.obj 1), .xDest (.obj 1) (.obj 2), .tHb (.obj 2)] ≠ [] := by decide
+example : clauseHbSchedule [.start, .tHb (.obj 1), .cycle 1, .tHb (.obj 1), .tHb (.obj 2), .cycle 2, .tHb (.obj 1)] = [] := by
+  decide
+
+-- clause turns: a second command of the same user in one iteration
+example : clauseTurns [.start, .cycle 1, .tInput (.user 1) "a", .tCmd (.user 1) "a", .tInput (.user 2) "x", .tCmd (.user 2) "x",
+    .tInput (.user 1) "b", .cycle 2] ≠ [] := by decide
+example : clauseTurns [.start, .cycle 1, .tInput (.user 1) "a", .tCmd (.user 1) "a", .tInput (.user 2) "x", .tCmd (.user 2) "x",
+    .cycle 2, .tInput (.user 1) "b", .tCmd (.user 1) "b"] = [] := by decide
+
+-- clause preload: the file after a failing one was skipped
+example : clausePreload { preloads := ["p1", "p2", "p3"] } [.tEpilog, .tPreload "p1", .tPreload "p2", .xErr "p2",
+    .meh false "boom p2", .start, .cycle 1, .exitLoop] ≠ [] := by decide
+example : clausePreload { preloads := ["p1", "p2", "p3"] } [.tEpilog, .tPreload "p1", .tPreload "p2", .xErr "p2",
+    .meh false "boom p2", .tPreload "p3", .start, .cycle 1, .exitLoop] = [] := by decide
+-- ... and a file loaded only after backend() was entered does not count
+example : clausePreload { preloads := ["p1"] } [.tEpilog, .start, .tPreload "p1", .cycle 1, .exitLoop] ≠ [] := by decide
+
 end NV.C09
